@@ -44,7 +44,7 @@ let lz10c (toks : string list) : string =
   | [flag; b] ->
     if flag = "0" then "SKIP" else
       let x = parse_b b in
-      compress_line ~skip_rt:(flag = "3") x (Machine.Ok (LZ10.compress10 x)) LZDecode.lz10_decompress
+      compress_line ~skip_rt:(flag = "3") x (LZ10.compress10_o x) LZDecode.lz10_decompress
   | _ -> failwith "lz10c: bad case"
 
 let lz13c (toks : string list) : string =
@@ -52,7 +52,7 @@ let lz13c (toks : string list) : string =
   | [flag; b] ->
     if flag = "0" then "SKIP" else
       let x = parse_b b in
-      let c = if flag = "1" || flag = "3" then LZ11.compress13_nohdr Machine.Checked x else LZ11.compress13 Machine.Checked x in
+      let c = if flag = "1" || flag = "3" then LZ11.compress13_nohdr_o Machine.Checked x else LZ11.compress13_o Machine.Checked x in
       compress_line ~skip_rt:(flag = "3") x c LZDecode.lz13_decompress
   | _ -> failwith "lz13c: bad case"
 
@@ -71,7 +71,7 @@ let lz13f (toks : string list) : string =
   | [flag; b] ->
     if flag = "0" then "SKIP" else
       let x = parse_b b in
-      let c = if flag = "2" then LZDecode.cf_compress LZDecode.CF13 Machine.Checked x else LZ11.compress13_nohdr Machine.Checked x in
+      let c = if flag = "2" then LZDecode.cf_compress LZDecode.CF13 Machine.Checked x else LZ11.compress13_nohdr_o Machine.Checked x in
       compress_line ~skip_rt:(flag = "3") x c (LZDecode.cf_decompress LZDecode.CF13)
   | _ -> failwith "lz13f: bad case"
 
